@@ -236,6 +236,7 @@ fn has_features(prog: &Prog) -> (bool, bool, bool) {
 
 impl Prop for Equivalence {
     type Case = Case;
+    crate::prog_shrink!();
     fn name(&self) -> String {
         "C20/equivalence".into()
     }
